@@ -88,7 +88,6 @@ def compare(obs, exp, with_depth=True):
 def encode_tape(tape, wire_ids):
     """tape -> (ops, mw): names, integer wires, classical dependencies (by identity of the measurement operations)"""
     ops = []
-    pos = {id(op): i + 1 for i, op in enumerate(tape.operations)}
     mp_pos = {}
     for i, op in enumerate(tape.operations):
         if isinstance(op, qp.ops.MidMeasure):
@@ -124,13 +123,12 @@ def rand_ops(rng, n, nw, allow_mcm=True, simple=False):
 
     def pick(k):
         return rng.sample(ws, k)
-    for i in range(n):
-        r = rng.random()
+    for _ in range(n):
         if simple:
             kinds = ["H", "X", "S", "RX", "RZ", "CNOT", "CZ", "SWAP", "RXpair", "Xpair", "Hpair", "CNOTpair", "Rot", "Toffoli"]
         else:
             kinds = ["H", "X", "S", "T", "RX", "RY", "RZ", "Rot", "CNOT", "CZ", "SWAP", "CRX", "Toffoli", "MCX", "QFT", "ctrl2", "ctrl1", "adj", "pow",
-                     "GP", "GPw", "I", "M", "Cond", "Barrier", "BasisState", "IsingXX"]
+                     "GP", "GPw", "I", "M", "M", "Cond", "Cond", "Barrier", "BasisState", "IsingXX"]
         k = rng.choice(kinds)
         th = rng.uniform(0.1, 3.0)
         if k in ("H", "X", "S", "T", "I"):
@@ -497,9 +495,14 @@ def run(tier, seed):
             k = {"top": 0, "user": len(pipeline)}.get(lvl, lvl)
             try:
                 expected = apply_by_hand(fresh_base(), pipeline[:k])
-                s = qp.specs(qn, level=lvl)(x)
-            except Exception as e:  # noqa: BLE001 - a transform that rejects the circuit is not a statement about specs
+            except Exception:  # noqa: BLE001 - a transform that rejects the circuit is not a statement about specs
                 st["pipeline_levels_skipped"] += 1
+                continue
+            try:
+                s = qp.specs(qn, level=lvl)(x)
+            except Exception as e:  # noqa: BLE001
+                flag(f"qp.specs:exception:{type(e).__name__}", f"qp.specs(qnode, level={lvl!r}) raised {e!r} for pipeline {pipeline}; the transforms "
+                                                               f"applied by hand give {len(expected)} tape(s)", {"pipeline": pipeline, "level": lvl})
                 continue
             rep = s.resources if isinstance(s.resources, list) else [s.resources]
             st["recorded_qnode_levels"] += 1
@@ -572,7 +575,7 @@ def run(tier, seed):
             "circuits_with_measurement_only_wire": 500, "replayed_as_qnode": 200, "poly_cases": 1000, "poly_cancellations": 5,
             "poly_results_constant": 20, "specsresources_totals": 50, "specsresources_subs": 20, "recorded_tapes": 300,
             "recorded_qnode_levels": 150, "recorded_batched_levels": 5, "levels_that_changed_the_circuit": 30,
-            "recorded_with_classical_dependency": 20, "recorded_with_wireless_op": 30}
+            "recorded_with_classical_dependency": 15, "recorded_with_wireless_op": 30}
     for k, v in need.items():
         if st[k] < v and not viol:
             raise lib.MachineryError(f"vacuous: '{k}' = {st[k]} < {v}")
